@@ -4,6 +4,11 @@ import json, os, glob
 ROOT = os.path.dirname(os.path.dirname(os.path.abspath(__file__)))
 m = json.load(open(os.path.join(ROOT, 'MANIFEST.json')))
 partial = {c['property_id']: (c['level_note'].startswith('PARTIAL') or c['level_claimed']['text'].startswith('PARTIAL')) for c in m['checks']}
+kf = json.load(open(os.path.join(ROOT, 'known_findings.json')))['findings']
+open_f = {}
+for k in kf:
+    if k.get('status') == 'open':
+        open_f.setdefault(k['property'], []).append(k['id'])
 print('| property | units run | obligations (all discharged) | functions under contract | solver time | bounded stand-ins in the quick tier (never counted as proved) |')
 print('|---|---|---|---|---|---|')
 for p in sorted(glob.glob(os.path.join(ROOT, 'evidence', 'C*.json'))):
@@ -21,4 +26,4 @@ for p in sorted(glob.glob(os.path.join(ROOT, 'evidence', 'C*.json'))):
         else:
             extras.append(n.split(' (')[0] + ' [' + '/'.join(x.get('backends', [])) + ']')
     pid = e['property_id']
-    print('| %s%s | %s | %d | %d | %.1f s | %s |' % (pid, ' (partial)' if partial.get(pid) else '', units, c['obligations'], len(c.get('functions_under_contract', [])), smt, ', '.join(extras) or '-'))
+    print('| %s%s | %s | %d | %d | %.1f s | %s |' % (pid, (' (partial)' if partial.get(pid) else '') + (' (open finding %s)' % ', '.join(open_f[pid]) if pid in open_f else ''), units, c['obligations'], len(c.get('functions_under_contract', [])), smt, ', '.join(extras) or '-'))
